@@ -93,8 +93,9 @@ def scenarios(tier):
             arrangements.append(('separate', o, m))
     nodes = ['one', 'list-of-2'] if tier == 'quick' else [
         'one', 'list-of-2', 'list-with-junk']
-    norms = [(True, True)] if tier == 'quick' else [
-        (True, True), (False, True), (True, False), (False, False)]
+    # the non-default flag combinations are judged fault-free only (see
+    # explore_scenario), so they are cheap enough for the quick tier too
+    norms = [(True, True), (False, True), (True, False), (False, False)]
     for mp, o, m in arrangements:
         for names in NAMES:
             for nd in nodes:
